@@ -7,6 +7,8 @@
     Statements only; proofs live in Proofs/RefinementProofs.v (records, addressing, composition),
     Proofs/RefinementTextProofs.v (the rendered worklist, composition after distribute) and
     Proofs/RefinementExtraProofs.v (checked replay, the refuted composition clause, Fluent and float examples).
+    Proofs/CentsProofs.v: the two-decimals hypothesis [cents_ok] of the text theorems derived from the INPUTS of
+    the program ([C01_cents_from_inputs], [C01_run_text_exact_inputs], [C01_run_text_checked_inputs]).
 
     Definitions used (Proofs/RefinementProofs.v):
     [rack_sim L r]: rack [r] has the name, geometry, min and max of labware [L] and [Forall2 Qeq] volumes
@@ -40,7 +42,7 @@
     interpreter's limit checks off ([C01_run_text_exact / _bound]) and on ([C01_run_text_checked]). *)
 From Robo Require Import Prelude Str Wells Utils Labware Tips Records Partition Params Worklist EvoCmd
   Program Invariants Robot LabwareProofs RefinementProofs.
-From Robo Require Import Gwl RecordsProofs RefinementTextProofs RefinementExtraProofs.
+From Robo Require Import Gwl RecordsProofs RefinementTextProofs RefinementExtraProofs CentsProofs.
 From Coq Require Import Sorting.Sorted.
 #[local] Open Scope Q_scope.
 
@@ -554,6 +556,68 @@ Theorem C01_text_checked_implies_unchecked : forall d rb lines rb',
 Proof. exact interp_text_unchecked. Qed.
 Print Assumptions C01_text_checked_implies_unchecked.
 
+(** [cents_ok] from the INPUTS (REVIEW2 N1).  The hypothesis [Forall cents_ok (records)] of C01_run_text_exact /
+    _checked is about the OUTPUT; here is a sufficient condition on the program.
+    [is_cents q]: [q] is a multiple of 1/100; [x_cents x]: the same for a finite API number;
+    [vol_cents w v] (a requested transfer volume): [v] is a multiple of 1/100 and it is not split (auto_split off,
+      or [v <= max_volume]) or max_volume is a multiple of 1/100 too.  The last case covers EVERY split:
+      [partition_volume v m] consists of n - 1 steps of size [s] and a last step [v - (n - 1) s], where [s] is
+      the integer [ceil (v / n)] or [m] itself (C06, Proofs/PartitionProofs.v); with [m] not a multiple of
+      1/100 the steps need not be ([C01_example_cents_needed]: 1 uL with max_volume 2/3 gives 2/3 + 1/3);
+    [op_cents w o]: every requested volume of aspirate / dispense / aspirate_well / dispense_well is [x_cents],
+      every requested volume of a transfer is [vol_cents w]; nothing is asked of the other operations
+      (distribute writes an R record, the script commands of evo_aspirate / evo_dispense are not A / D records). *)
+Definition is_cents (q : Q) : Prop := exists z : Z, q * 100 == inject_Z z.
+Definition x_cents (x : xnum) : Prop := match x with XQ v => is_cents v | _ => True end.
+Definition vol_cents (w : wstate) (v : Q) : Prop :=
+  is_cents v /\ (w_autosplit w = false \/ v <= w_max w \/ is_cents (w_max w)).
+Definition op_cents (w : wstate) (o : op) : Prop :=
+  match o with
+  | OAspirate _ _ vols _ _ => Forall x_cents (flattenF vols)
+  | ODispense _ _ vols _ _ _ => Forall x_cents (flattenF vols)
+  | OTransfer _ _ _ _ vols _ _ _ _ => Forall (vol_cents w) (flattenF vols)
+  | OAspWell a | ODispWell a => match x_volume a with PV x => x_cents x | PVBad => True end
+  | _ => True
+  end.
+
+(** the steps of a split volume are multiples of 1/100 when the volume is and (it is not split or) the
+    maximum is *)
+Theorem C01_partition_cents : forall v m,
+  is_cents v -> v <= m \/ is_cents m -> Forall is_cents (partition_volume v m).
+Proof. exact partition_cents. Qed.
+Print Assumptions C01_partition_cents.
+
+(** any program ([Program.op]: all operations, accepted or not; [w_max] and [w_autosplit] never change):
+    if the inputs are multiples of 1/100 so are all A / D volumes of the worklist *)
+Theorem C01_cents_from_inputs : forall s0 ops,
+  Forall cents_ok (w_recs (st_wl s0)) -> Forall (op_cents (st_wl s0)) ops ->
+  Forall cents_ok (w_recs (st_wl (fst (run s0 ops)))).
+Proof. exact cents_from_inputs. Qed.
+Print Assumptions C01_cents_from_inputs.
+
+(** C01_run_text_exact / C01_run_text_checked with hypotheses that speak only about the program *)
+Theorem C01_run_text_exact_inputs : forall s0 ops,
+  good_state s0 -> w_recs (st_wl s0) = [] ->
+  forallb wl_op ops = true -> Forall (op_ok s0) ops -> Forall op_text_ok ops ->
+  Forall (op_cents (st_wl s0)) ops ->
+  Forall (fun e => e = None) (snd (run s0 ops)) ->
+  exists rb, interp_text false (w_dev (st_wl s0)) (robot_of (st_lw s0))
+               (map render (w_recs (st_wl (fst (run s0 ops))))) = Some rb /\
+             sim (fst (run s0 ops)) rb.
+Proof. exact run_file_exact_inputs. Qed.
+Print Assumptions C01_run_text_exact_inputs.
+
+Theorem C01_run_text_checked_inputs : forall s0 ops,
+  good_state s0 -> w_recs (st_wl s0) = [] ->
+  forallb wl_op ops = true -> Forall (op_ok s0) ops -> Forall op_text_ok ops ->
+  Forall (op_cents (st_wl s0)) ops ->
+  Forall (fun e => e = None) (snd (run s0 ops)) ->
+  exists rb, interp_text true (w_dev (st_wl s0)) (robot_of (st_lw s0))
+               (map render (w_recs (st_wl (fst (run s0 ops))))) = Some rb /\
+             sim (fst (run s0 ops)) rb.
+Proof. exact run_file_exact_checked_inputs. Qed.
+Print Assumptions C01_run_text_checked_inputs.
+
 (** non-vacuity: the example program above; its file, executed, gives the tracked volumes *)
 Example C01_example_text_hyps :
   Forall op_text_ok C01_ex_prog /\
@@ -676,6 +740,32 @@ Example C01_example_text_bound :
   map (fun j => hits Evo (map lw_name (st_lw (ex_state Evo))) (map lw_geom (st_lw (ex_state Evo)))
                      (w_recs (st_wl (fst r))) 0 j) [0; 1; 2; 3]%nat = [1; 1; 0; 0]%nat.
 Proof. vm_compute. repeat split; reflexivity. Qed.
+
+(** the input condition holds of the three accepted example programs - C01_ex_prog splits 2000 into 667 + 667 + 666
+    and C01_ex_prog_fluent 1900 into 950 + 950, max_volume 950 being a multiple of 1/100 - so
+    C01_run_text_exact_inputs / _checked_inputs apply to them without looking at the records; it fails for
+    C01_ex_prog3 (12.345), whose file is 1/200 off (C01_example_text_bound) *)
+Example C01_example_cents_hyps :
+  Forall (op_cents (st_wl (ex_state Evo))) C01_ex_prog /\
+  Forall (op_cents (st_wl (ex_state Fluent))) C01_ex_prog_fluent /\
+  Forall (op_cents (st_wl (ex_state Evo))) C01_ex_prog_float /\
+  ~ Forall (op_cents (st_wl (ex_state Evo))) C01_ex_prog3.
+Proof. exact cents_example_hyps. Qed.
+
+Example C01_example_cents_instance :
+  let s0 := ex_state Fluent in
+  exists rb, interp_text true Fluent (robot_of (st_lw s0))
+               (map render (w_recs (st_wl (fst (run s0 C01_ex_prog_fluent))))) = Some rb /\
+             sim (fst (run s0 C01_ex_prog_fluent)) rb.
+Proof.
+  destruct C01_example_fluent_hyps as (H1 & H2 & H3 & H4 & H5 & H6 & _).
+  exact (C01_run_text_checked_inputs _ _ H1 H2 H3 H4 H5 (proj1 (proj2 C01_example_cents_hyps)) H6).
+Qed.
+
+(** the condition on max_volume is needed: with max_volume 2/3 the volume 1 is split into 2/3 + 1/3 *)
+Example C01_example_cents_needed :
+  partition_volume 1 (2 # 3) = [2 # 3; 1 # 3] /\ ~ is_cents (2 # 3) /\ ~ is_cents (1 # 3).
+Proof. exact partition_not_cents. Qed.
 
 (* ================================================================== composition after distribute *)
 
